@@ -22,6 +22,7 @@ RULE = ("corpus = standard-library code objects containing a with statement (20 
         "distinct code objects; non-trivial = has a certified observation with a non-empty truth / an exit in progress / a "
         "non-empty reported context list / >= 2 table entries / a non-empty logged truth")
 CONFIG = dict(
+    escalate=False,
     coq=["C01"], level="proof",
     claim=("Coq theorem (certificate soundness, by induction over all executions of an abstract machine for the "
            "3.11/3.12 with-protocol): for every code object whose certificate Coq's checker accepts, the model of "
